@@ -127,20 +127,36 @@ func runCore(sc *Scenario, res *Result, keepLog bool) {
 	r.defFP = render(r.defaults)
 	sources := r.buildSources()
 	r.phase = "config"
-	func() {
+	raceConfig := sc.File != nil && sc.File.RaceConfig
+	doConfig := func() {
 		defer func() {
 			if x := recover(); x != nil {
 				r.fail("crash", "Config panicked: %v", x)
 				r.cfgErr = fmt.Errorf("panic: %v", x)
 			}
 		}()
-		r.d, r.cfgErr = r.params().Config(r.ctx, r.defaults, sources...)
-	}()
-	r.oracleConfig()
-	for k, v := range sc.Rates {
-		s.Faults[k] = v // faults are armed only once Config has returned
+		d, err := r.params().Config(r.ctx, r.defaults, sources...)
+		r.d, r.cfgErr = d, err
 	}
-	if r.d != nil {
+	if raceConfig {
+		// Config itself is a task: the writer's operations race the initial
+		// read and the setting up of the watches. The other clients wait for it.
+		r.probe("config-raced-by-writer")
+		r.clients++
+		s.Spawn("config", func() {
+			doConfig()
+			r.configDone = true
+			r.finished++
+		})
+	} else {
+		doConfig()
+		r.configDone = true
+		r.oracleConfig()
+	}
+	for k, v := range sc.Rates {
+		s.Faults[k] = v // faults are armed only once Config has returned (or, when raced, from the start)
+	}
+	if r.d != nil || raceConfig {
 		s.AfterStep = r.observe
 		r.observe()
 		r.phase = "clients"
@@ -156,7 +172,7 @@ func runCore(sc *Scenario, res *Result, keepLog bool) {
 			res.Reason += "/" + string(settle)
 			r.crashOracle()
 			r.stuckOracle(reason, settle)
-			if reason == simrt.Done && settle == simrt.Quiescent {
+			if reason == simrt.Done && settle == simrt.Quiescent && r.d != nil {
 				r.endOracles()
 			}
 		}
@@ -178,7 +194,12 @@ func runCore(sc *Scenario, res *Result, keepLog bool) {
 func (r *Run) shutdown() {
 	s := r.sim
 	if r.d == nil {
+		r.cancel()
 		s.Run(2000, nil, time.Now().Add(settleHorizon))
+		if r.file != nil {
+			r.releaseOracle()
+			return
+		}
 		r.leakOracle("after a failed Config")
 		return
 	}
